@@ -353,6 +353,26 @@ func applyTree(op Op, tree any, oc opCtx) (any, bool) {
 		e["result"] = append(append([]any{}, a[:op.J]...), a[op.J+1:]...)
 		return wrap(es), true
 
+	// ---- blockHash / transactionHash members of logs, receipts and traces
+	case "log.bhash", "rcpt.bhash", "trace.bhash", "log.txhash", "rcpt.txhash", "trace.txhash":
+		field := "blockHash"
+		if op.Name[len(op.Name)-6:] == "txhash" {
+			field = "transactionHash"
+		}
+		if !setHash(item(op.I, op.J), field, op.S) {
+			return tree, false
+		}
+		return wrap(es), true
+	case "log.bhash2", "rcpt.bhash2", "trace.bhash2": // short hash on item J, a foreign full-length hash on the later item N
+		a, b := item(op.I, op.J), item(op.I, int(op.N))
+		if a == nil || b == nil || op.J >= int(op.N) {
+			return tree, false
+		}
+		if !setHash(a, "blockHash", op.S) || !setHash(b, "blockHash", "foreign") {
+			return tree, false
+		}
+		return wrap(es), true
+
 	// ---- receipts
 	case "rcpt.renum":
 		r := item(op.I, op.J)
@@ -397,11 +417,37 @@ func applyTree(op Op, tree any, oc opCtx) (any, bool) {
 	return tree, false
 }
 
+// setHash applies one variant to a 32-byte hash member of an item.
+func setHash(it map[string]any, field, variant string) bool {
+	if it == nil {
+		return false
+	}
+	cur, ok := it[field].(string)
+	if !ok || len(cur) != 66 {
+		return false
+	}
+	switch variant {
+	case "missing":
+		delete(it, field)
+	case "empty":
+		it[field] = "0x"
+	case "short": // 31 bytes
+		it[field] = cur[:64]
+	case "foreign": // another fork's full-length hash
+		it[field] = hx(foreign)
+	default:
+		return false
+	}
+	return true
+}
+
 var (
-	errCodes    = []int64{-32000, -32602, 429}
-	statusCodes = []int64{301, 400, 429, 500, 503}
-	renumKinds  = []string{"n-1", "n+1", "start-1", "end", "zero"}
-	truncKinds  = []string{"zero", "one", "half", "last", "instr"}
+	hashVariants = []string{"missing", "empty", "short", "foreign"}
+	shortHashes  = []string{"missing", "empty", "short"}
+	errCodes     = []int64{-32000, -32602, 429}
+	statusCodes  = []int64{301, 400, 429, 500, 503}
+	renumKinds   = []string{"n-1", "n+1", "start-1", "end", "zero"}
+	truncKinds   = []string{"zero", "one", "half", "last", "instr"}
 )
 
 // exKind classifies an exchange by the methods it asks for.
@@ -438,7 +484,7 @@ func otherBlocks(own uint64, oc opCtx) []uint64 {
 
 // enumOps lists EVERY applicable single corruption of exchange k, given its honest
 // response tree (decoded from the bytes the baseline run was sent).
-func enumOps(k int, ex *simeth.Exchange, tree any, oc opCtx) []Op {
+func enumOps(k int, ex *simeth.Exchange, tree any, oc opCtx, lite bool) []Op {
 	var ops []Op
 	// keep only operators that really change this response, and only one operator per
 	// distinct corrupted response (e.g. dropping the only trace == emptying the array)
@@ -541,6 +587,30 @@ func enumOps(k int, ex *simeth.Exchange, tree any, oc opCtx) []Op {
 				}
 				add(Op{Name: "log.txidx", I: i, J: j, N: 7})
 				add(Op{Name: "log.logidx", I: i, J: j, N: 99})
+				if lite { // quick tier, cached URL: the eth_getLogs path does not depend on the cache
+					continue
+				}
+				for _, v := range hashVariants {
+					add(Op{Name: "log.bhash", I: i, J: j, S: v})
+					add(Op{Name: "log.txhash", I: i, J: j, S: v})
+				}
+				// combined: short hash on the first log of a block, a foreign hash on each later log of that block
+				firstOfBlock := true
+				for _, o := range items[:j] {
+					if bn, _ := parseU(asMap(o)["blockNumber"]); bn == own {
+						firstOfBlock = false
+					}
+				}
+				if firstOfBlock {
+					for j2 := j + 1; j2 < len(items); j2++ {
+						if bn, _ := parseU(asMap(items[j2])["blockNumber"]); bn != own {
+							continue
+						}
+						for _, v := range shortHashes {
+							add(Op{Name: "log.bhash2", I: i, J: j, N: int64(j2), S: v})
+						}
+					}
+				}
 			}
 		case "receipts":
 			for j := range items {
@@ -559,6 +629,17 @@ func enumOps(k int, ex *simeth.Exchange, tree any, oc opCtx) []Op {
 				add(Op{Name: "rcpt.txidx", I: i, J: j, N: 7})
 				add(Op{Name: "rcpt.drop", I: i, J: j})
 				add(Op{Name: "rcpt.dup", I: i, J: j})
+				for _, v := range hashVariants {
+					add(Op{Name: "rcpt.bhash", I: i, J: j, S: v})
+					add(Op{Name: "rcpt.txhash", I: i, J: j, S: v})
+				}
+				if j == 0 {
+					for j2 := 1; j2 < len(items); j2++ {
+						for _, v := range shortHashes {
+							add(Op{Name: "rcpt.bhash2", I: i, J: 0, N: int64(j2), S: v})
+						}
+					}
+				}
 			}
 		case "traces":
 			for j := range items {
@@ -583,6 +664,17 @@ func enumOps(k int, ex *simeth.Exchange, tree any, oc opCtx) []Op {
 				add(Op{Name: "trace.txpos", I: i, J: j, N: 7})
 				add(Op{Name: "trace.drop", I: i, J: j})
 				add(Op{Name: "trace.dup", I: i, J: j})
+				for _, v := range hashVariants {
+					add(Op{Name: "trace.bhash", I: i, J: j, S: v})
+					add(Op{Name: "trace.txhash", I: i, J: j, S: v})
+				}
+				if j == 0 {
+					for j2 := 1; j2 < len(items); j2++ {
+						for _, v := range shortHashes {
+							add(Op{Name: "trace.bhash2", I: i, J: 0, N: int64(j2), S: v})
+						}
+					}
+				}
 			}
 		}
 	}
